@@ -10,7 +10,7 @@ for f in ("patch.diff", "demo.py"):
 meta = json.load(open(os.path.join(src, "meta.json")))
 r = subprocess.run(["/venv/bin/python", os.path.join(VERIF, "harness", "muttest.py"), dst] + pids, capture_output=True, text=True, cwd=VERIF)
 print(r.stdout[-3000:])
-meta2 = {"property": meta.get("property"), "summary": meta.get("summary"), "needs_to_manifest": meta.get("needs_to_manifest"),
+meta2 = {"checks": pids, "property": meta.get("property"), "summary": meta.get("summary"), "needs_to_manifest": meta.get("needs_to_manifest"),
          "files": meta.get("files"), "author": "independent sub-agent given only the property text and a scratch worktree",
          "confirmed": {"tests_pass_with_patch": meta.get("tests_passed"), "how_verified_by_author": meta.get("how_verified"),
                        "ran_here": f"harness/muttest.py seeded/{sid} " + " ".join(pids) + "  (scratch copy of /repo + patch; demo on mutant and on clean tree; checks with VERIF_REPO=<copy>)",
